@@ -1,8 +1,84 @@
 import Req.Driver.Proto
+import Req.Client.Url
 /-! Driver lanes of C01. -/
 namespace Req.Driver.L.C01
 open Req.Proto
 
-def lanes : List (String × (List String → String)) := []
+/-- `k:v,k:v` (hex) or `-`. -/
+def decodePMap (s : String) : Option (List (Bytes × Bytes)) :=
+  if s == "-" then some [] else
+  (s.splitOn ",").mapM fun e =>
+    match e.splitOn ":" with
+    | [k, v] => do pure ((← decodeHex k), (← decodeHex v))
+    | _ => none
+
+/-- `k:v1:v2,k2,k3:v` (hex; a bare key has no values) or `-`. -/
+def decodeQMap (s : String) : Option (List (Bytes × List Bytes)) :=
+  if s == "-" then some [] else
+  (s.splitOn ",").mapM fun e =>
+    match e.splitOn ":" with
+    | k :: vs => do pure ((← decodeHex k), (← vs.mapM decodeHex))
+    | [] => none
+
+def b01 (b : Bool) : String := if b then "1" else "0"
+
+def showUrl (u : Req.Url.Url) : String :=
+  let user := match u.user with
+    | none => "-"
+    | some (n, none) => encodeHex n
+    | some (n, some p) => encodeHex n ++ ":" ++ encodeHex p
+  s!"ok scheme={encodeHex u.scheme} opaque={encodeHex u.opaq} user={user} host={encodeHex u.host} " ++
+  s!"path={encodeHex u.path} rawpath={encodeHex u.rawPath} omit={b01 u.omitHost} " ++
+  s!"fq={b01 u.forceQuery} rq={encodeHex u.rawQuery} frag={encodeHex u.fragment} " ++
+  s!"rawfrag={encodeHex u.rawFragment} ruri={encodeHex (Req.Url.requestURI u)}"
+
+def showUrlResult : Except Req.Url.Err Req.Url.Url → String
+  | .ok u => showUrl u
+  | .error _ => "err"
+
+/-- `c01url <rawURL> <rPath> <cPath> <cScheme> <baseURL> <cQuery> <rQuery>` -/
+def laneUrl : List String → String
+  | [raw, rp, cp, sch, base, cq, rq] =>
+    match decodeHex raw, decodePMap rp, decodePMap cp, decodeHex sch, decodeHex base,
+          decodeQMap cq, decodeQMap rq with
+    | some raw, some rp, some cp, some sch, some base, some cq, some rq =>
+      showUrlResult (Req.Url.parseRequestURL
+        { rawURL := raw, rPath := rp, cPath := cp, cScheme := sch, baseURL := base,
+          cQuery := cq, rQuery := rq })
+    | _, _, _, _, _, _, _ => "bad-op"
+  | _ => "bad-op"
+
+/-- `c01parse <raw>`: `url.Parse` + `String()` + `RequestURI()`. -/
+def laneParse : List String → String
+  | [raw] =>
+    match decodeHex raw with
+    | some raw =>
+      match Req.Url.parse raw with
+      | .ok u => showUrl u ++ " str=" ++ encodeHex (Req.Url.toString u)
+      | .error _ => "err"
+    | none => "bad-op"
+  | _ => "bad-op"
+
+/-- `c01esc <mode> <s>`: escape, then unescape of the input itself. -/
+def laneEsc : List String → String
+  | [mode, s] =>
+    let m : Option Req.Pct.Mode := match mode with
+      | "path" => some .path | "seg" => some .pathSegment | "host" => some .host
+      | "zone" => some .zone | "user" => some .userPassword | "query" => some .queryComponent
+      | "frag" => some .fragment | _ => none
+    match m, decodeHex s with
+    | some m, some s =>
+      encodeHex (Req.Pct.escape m s) ++ " " ++
+        (match Req.Pct.unescape m s with
+         | some r => "ok:" ++ encodeHex r
+         | none => "err")
+    | _, _ => "bad-op"
+  | _ => "bad-op"
+
+def lanes : List (String × (List String → String)) := [
+  ("c01url", laneUrl),
+  ("c01parse", laneParse),
+  ("c01esc", laneEsc)
+]
 
 end Req.Driver.L.C01
